@@ -473,6 +473,8 @@ def _r1(chk, model: Model, views: dict[str, MethodView], store: str, mediators: 
                     chk.ob("C22.R1", f"the value put into ContextVar `{loc.name}` is created per scope (a stored object would be the same for every task)", not shared,
                            m=m, node=c, fn=v.fn, instance=f"taskLocal-shared-value:{loc.name}",
                            reason=f"`{ast.unparse(c)[:70]}` publishes `{shared[0] if shared else ''}`, one object kept on the manager / module, to every task")
+            if loc.node is not None and enclosing_function(loc.node) is None:
+                _cv_ownership(chk, model, views, loc)
             if loc.kind == "cv" and loc.node is not None and enclosing_function(loc.node) is not None:
                 chk.observe(f"C22.R1: ContextVar `{loc.name}` is created per instance; contexts keep ContextVars alive (leak under workflow churn) — outside the statement")
             continue
@@ -547,6 +549,112 @@ def _r1(chk, model: Model, views: dict[str, MethodView], store: str, mediators: 
                    m=m, node=loc.node, fn=enclosing_function(loc.node) if loc.node is not None else None, instance=loc.name)
     if floors:
         chk.floor("C22.R1", "state locations examined (instance / class attributes, module state used by the methods; the persistent store is R2's)", examined + 1, 1)
+
+
+def _cv_ownership(chk, model: Model, views: dict[str, MethodView], loc: Loc) -> None:
+    """A module-level ContextVar is shared by every manager, and a task copies the context of the task that created it:
+    a step task of workflow B started from inside a resource factory of workflow A starts life with A's resolution record
+    in the variable.  A value read from the variable may therefore be *used* (its chain / cache read or written, or the
+    scope entered without installing a fresh record) only under a test that it belongs to this manager."""
+    m = model.m
+
+    def is_var(e: ast.AST) -> bool:
+        return (isinstance(e, ast.Name) and e.id == loc.name) or (isinstance(e, ast.Attribute) and e.attr == loc.name)
+
+    # the owner field: `VAR.set(R(self))` with R.__init__ storing that parameter
+    owner: str | None = None
+    ctor_known = False
+    sets = []
+    for v in views.values():
+        for c in walk_shallow(v.fn):
+            if isinstance(c, ast.Call) and isinstance(c.func, ast.Attribute) and c.func.attr == "set" and is_var(c.func.value) and c.args:
+                sets.append((v, c))
+                val = expand(c.args[0], c)
+                if isinstance(val, ast.Call) and isinstance(val.func, ast.Name) and val.func.id in m.classes:
+                    ctor_known = True
+                    rinit = m.functions.get(f"{val.func.id}.__init__")
+                    idx = next((i for i, a in enumerate(val.args) if isinstance(a, ast.Name) and a.id == v.sn), None)
+                    if rinit is not None and idx is not None and len(rinit.args.args) > idx + 1:
+                        pname = rinit.args.args[idx + 1].arg
+                        rs = _self_name(rinit)
+                        for st in walk_shallow(rinit):
+                            if isinstance(st, (ast.Assign, ast.AnnAssign)) and st.value is not None and isinstance(st.value, ast.Name) and st.value.id == pname:
+                                t = st.targets[0] if isinstance(st, ast.Assign) else st.target
+                                if isinstance(t, ast.Attribute) and isinstance(t.value, ast.Name) and t.value.id == rs:
+                                    owner = t.attr
+    if not sets:
+        return
+    if not ctor_known and not any(isinstance(expand(c.args[0], c), ast.Call) for _v, c in sets):
+        return  # a stored object is published (reported by taskLocal-shared-value); nothing is created per scope
+    if not ctor_known:
+        raise AnchorError(f"C22.R1: the value stored in `{loc.name}` is not an instance of a class of {m.rel}: ownership of an inherited value cannot be decided for this idiom")
+    sites = 0
+    # scope methods (@contextmanager) of the class that install a record: inside `with self.<scope>()` the record is this manager's
+    # provided every yield of the scope is itself owner-established (checked below like any other use)
+    scopes = {v.name for v, _c in sets if _is_cm(v.fn)}
+
+    def only_called_inside_scope(name: str) -> bool:
+        """Every call `self.<name>(…)` in the class sits inside a `with self.<scope>()` body, or inside `name` itself
+        (recursion through the established invariant)."""
+        calls = 0
+        for vv in views.values():
+            for c in ast.walk(vv.fn):
+                if isinstance(c, ast.Call) and isinstance(c.func, ast.Attribute) and c.func.attr == name and isinstance(c.func.value, ast.Name) and c.func.value.id == vv.sn:
+                    calls += 1
+                    if vv.name == name:
+                        continue
+                    inside = any(isinstance(w, (ast.With, ast.AsyncWith)) and any(isinstance(i.context_expr, ast.Call) and isinstance(i.context_expr.func, ast.Attribute)
+                                 and i.context_expr.func.attr in scopes and isinstance(i.context_expr.func.value, ast.Name) and i.context_expr.func.value.id == vv.sn for i in w.items)
+                                 for w in ancestors(c))
+                    if not inside:
+                        return False
+        return calls > 0 and name.startswith("_")
+
+    for v in views.values():
+        gets = [c for c in walk_shallow(v.fn) if isinstance(c, ast.Call) and isinstance(c.func, ast.Attribute) and c.func.attr == "get" and is_var(c.func.value)]
+        if not gets:
+            continue
+        if v.name not in scopes and only_called_inside_scope(v.name):
+            sites += 1
+            chk.ob("C22.R1", f"{v.name}: runs only inside `with self.<scope>()`, where the record in the task context is this manager's own", True, m=m, node=v.fn, fn=v.fn,
+                   instance=f"inherited-record-owner:{v.name}:scoped")
+            continue
+        aliases = set()
+        for g in gets:
+            p_ = parent(g)
+            if isinstance(p_, (ast.Assign, ast.AnnAssign)):
+                t = p_.targets[0] if isinstance(p_, ast.Assign) else p_.target
+                if isinstance(t, ast.Name):
+                    aliases.add(t.id)
+        set_nodes = [n for vv, c in sets if vv is v for n in v.cfg.node_of_containing(c)]
+        get_nodes = [n for g in gets for n in v.cfg.node_of_containing(g)]
+        after_get_no_set = v.cfg.reach(get_nodes, blocked=set_nodes, labels_excluded=NOEXC)
+        uses: list[tuple[Node, str]] = []
+        for n in v.cfg.nodes:
+            if n.ast is None or n not in after_get_no_set:
+                continue
+            for x in exprs_in_node(n):
+                if isinstance(x, ast.Attribute) and isinstance(x.value, ast.Name) and x.value.id in aliases and x.attr != owner and n.kind != "test":
+                    uses.append((n, f"reads `{x.value.id}.{x.attr}`"))
+                    break
+                if isinstance(x, (ast.Yield, ast.YieldFrom)):
+                    uses.append((n, "enters the scope without installing a record of its own"))
+                    break
+        for n, what in uses:
+            sites += 1
+            facts = facts_at(v.cfg, n, expand_locals=True, labels_excluded=NOEXC)
+            if owner is None:
+                ok = False
+                why = f"the record stored in `{loc.name}` does not say which manager created it"
+            else:
+                names = aliases or {f"{loc.name}.get()"}
+                ok = any(has_fact(facts, f"{a}.{owner} is {v.sn}") for a in names)
+                why = f"no `<record>.{owner} is {v.sn}` test on the path"
+            chk.ob("C22.R1", f"{v.name}: a resolution record taken from the task context is used only if it belongs to this manager (a task inherits the context, "
+                   f"hence the record, of the task that created it)", ok, m=m, node=n.ast, fn=v.fn, instance=f"inherited-record-owner:{v.name}",
+                   reason=f"{v.name} {what} — {why}: step tasks of a workflow started inside a resource factory of another workflow share that workflow's cycle chain and non-cached values "
+                          f"(false `Circular resource dependency`, stale non-cached resources)")
+    chk.floor("C22.R1", f"uses of a record read from `{loc.name}`", sites, 1)
 
 
 def _kw(k: str) -> str:
@@ -1145,6 +1253,9 @@ _PINNED_CLASS = '''class ResourceManager:
 _OLD = _class_text()
 
 TWINS = [
+    Twin("nested scope shares any record found in the context, not only this manager's", _P, "        if current is not None and current.manager is self:", "        if current is not None:", "C22.R1"),
+    Twin("benign: owner test written the other way round", _P, "        if current is not None and current.manager is self:", "        if current is not None and self is current.manager:", None),
+
     # ---- relative to the repaired manager (the pinned class already violates R1/R2 at every bookkeeping attribute)
     Twin("repair: task-local resolution state + per-name creation lock", _P, _OLD, _FIXED, None),
     Twin("proposed patch for R1 only (task-local bookkeeping; the R2 finding stays, nothing new)", _P, _OLD, _PATCH_R1, None),
